@@ -11,6 +11,7 @@ instance::/body:: columns.
 from __future__ import annotations
 
 import json
+import os
 
 from .. import common, drive, gen, render, xdiff
 from ..model import Row
@@ -146,19 +147,21 @@ def check(ctx, form, sig, emit_sample=False):
                 ctx.viol("R3:xform-differs:" + _cls(dd), f"[{label}] survey->to_json_dict->JSON text->survey gives a different XForm: {dd[:2]}", wit(rel="R3"))
             # ---- R4: the file entry points (json_dump -> create_survey_element_from_json) and the to_json() text
             if label == "fresh":
-                import os
                 import tempfile
                 from pyxform.builder import create_survey_element_from_json
-                fd, path = tempfile.mkstemp(suffix=".json", prefix="verif_c16_")
-                os.close(fd)
+                # one path per worker process, written again for every form (a converter service's scratch file): what is loaded is what was just dumped
+                from pyxform.builder import create_survey_from_path
+                path = os.path.join(tempfile.gettempdir(), f"verif_c16_{os.getpid()}_form.json")
                 try:
                     survey.json_dump(path)
                     x4 = create_survey_element_from_json(path).to_xml(validate=False, pretty_print=False)
+                    x6 = create_survey_from_path(path).to_xml(validate=False, pretty_print=False)
                     x5 = create_survey_element_from_json(survey.to_json()).to_xml(validate=False, pretty_print=False)
                 finally:
-                    os.unlink(path)
+                    if os.path.exists(path):
+                        os.unlink(path)
                 ctx.ctr("R4_evaluated")
-                for nm, xx in (("json_dump-file", x4), ("to_json-text", x5)):
+                for nm, xx in (("json_dump-file", x4), ("json_dump-file-create_survey_from_path", x6), ("to_json-text", x5)):
                     if xx != x0:
                         dd = xdiff.diffs(x0, xx) or [f"texts differ only in order: {_first_text_diff(x0, xx)}"]
                         ctx.viol(f"R4:xform-differs:{nm}:" + _cls(dd), f"survey -> {nm} -> create_survey_element_from_json gives a different XForm: {dd[:2]}", wit(rel="R4"))
@@ -220,8 +223,65 @@ def _gen(path):
     return re.sub(r"\[\d+\]", "[]", path)
 
 
+LOCALE_SCRIPT = r"""
+import json, os, sys, tempfile
+sys.path.insert(0, os.environ["VERIF_REPO"])
+from pyxform.builder import create_survey_element_from_dict, create_survey_element_from_json, create_survey_from_path
+from pyxform.xls2json import workbook_to_json
+from pyxform.xls2json_backends import get_xlsform
+md = sys.stdin.read()
+sv = create_survey_element_from_dict(workbook_to_json(get_xlsform(md, file_type=".md"), warnings=[]))
+x0 = sv.to_xml(validate=False, pretty_print=False)
+d = tempfile.mkdtemp(prefix="verif_c16_loc_")
+p = os.path.join(d, "form.json")
+out = {"encoding": __import__("locale").getpreferredencoding(False)}
+try:
+    sv.json_dump(p)
+    for nm, fn in (("create_survey_element_from_json", create_survey_element_from_json), ("create_survey_from_path", create_survey_from_path)):
+        try:
+            out[nm] = "same" if fn(p).to_xml(validate=False, pretty_print=False) == x0 else "differs"
+        except Exception as e:
+            out[nm] = "raised %s: %s" % (type(e).__name__, str(e)[:150])
+finally:
+    try:
+        os.unlink(p); os.rmdir(d)
+    except OSError:
+        pass
+print(json.dumps(out))
+"""
+
+
+def locale_roundtrip(ctx):
+    """The file leg of the round trip in a process whose preferred encoding is not UTF-8 (C locale, UTF-8 mode off): dumps are UTF-8 files whatever the locale."""
+    import subprocess
+    import sys
+    md = ("| survey |\n| | type | name | label::Fran\u00e7ais (fr) | label::\u0627\u0644\u0639\u0631\u0628\u064a\u0629 (ar) | hint |\n"
+          "| | text | pr\u00e9nom | Pr\u00e9nom \u2013 \u00e9t\u00e9 | \u0627\u0633\u0645 | \u00fc\u00f1\u00ee \U0001F600 |\n"
+          "| | select_one l | s | Ch\u00f6ix | \u062e | |\n| choices |\n| | list_name | name | label::Fran\u00e7ais (fr) | label::\u0627\u0644\u0639\u0631\u0628\u064a\u0629 (ar) |\n| | l | a | \u00c0 | \u0623 |\n")
+    for envname, env in (("utf8", {"PYTHONUTF8": "1"}), ("c-locale", {"LANG": "C", "LC_ALL": "C", "PYTHONUTF8": "0", "PYTHONCOERCECLOCALE": "0"})):
+        e = dict(os.environ, VERIF_REPO=drive.REPO, PYTHONIOENCODING="utf-8", **env)
+        try:
+            r = subprocess.run([sys.executable, "-c", LOCALE_SCRIPT], input=md.encode("utf-8"), capture_output=True, timeout=120, env=e)
+        except subprocess.TimeoutExpired:
+            ctx.ctr("locale_roundtrip_timeout")
+            continue
+        ctx.ctr("locale_roundtrips")
+        ctx.case(sig=f"locale-roundtrip|{envname}")
+        try:
+            out = json.loads(r.stdout.decode("utf-8").strip().splitlines()[-1])
+        except Exception:  # noqa: BLE001
+            ctx.viol(f"R4:locale:{envname}:child-failed", f"child exited {r.returncode}: {r.stderr.decode('utf-8', 'replace')[-300:]}", {"klass": "locale", "md": md})
+            continue
+        for nm in ("create_survey_element_from_json", "create_survey_from_path"):
+            if out.get(nm) != "same":
+                ctx.viol(f"R4:locale:{envname}:{nm}:{'raised' if str(out.get(nm)).startswith('raised') else 'differs'}",
+                         f"preferred encoding {out.get('encoding')}: json_dump -> {nm} -> to_xml: {out.get(nm)}", {"klass": "locale", "md": md})
+
+
 def run_shard(ctx):
     pl = plan(ctx.tier, ctx.seed)
+    if ctx.shard == 0:
+        locale_roundtrip(ctx)
     for i in range(pl["n"]):
         if not ctx.mine(i):
             continue
@@ -232,5 +292,8 @@ def run_shard(ctx):
 
 def replay(w):
     def chk(ctx, wit):
+        if wit.get("klass") == "locale":
+            locale_roundtrip(ctx)
+            return
         check(ctx, common.form_from_witness(wit), "replay")
     return common.replay_with(PROP, w, chk)
